@@ -79,7 +79,7 @@ def worker(i, todo, results, baseline):
                 if not todo:
                     return
                 pid, v = todo.pop(0)
-            src = os.path.join(ROOT, "s2-%s-out" % pid, v)
+            src = os.path.join(ROOT, "%s-%s-out" % (os.environ.get("ROUND", "s2"), pid), v)
             tag = "%s-%s" % (pid, v)
             try:
                 demo = open(os.path.join(src, "demo.rs")).read()
@@ -108,7 +108,7 @@ def worker(i, todo, results, baseline):
                     os.makedirs(dst, exist_ok=True)
                     for f in ("patch.diff", "demo.rs", "notes.md"):
                         shutil.copy(os.path.join(src, f), os.path.join(dst, f))
-                    json.dump({"property": pid, "variant": v, "round": 2,
+                    json.dump({"property": pid, "variant": v, "round": int(os.environ.get("ROUND", "s2")[1:]),
                                "origin": "independent sub-agent given only the property text and a scratch worktree of /repo at %s" % HEAD,
                                "needs_to_manifest": "see notes.md (written by the sub-agent)", "demo": "// copy to: " + rel,
                                "confirmed_by_me": {"how": "tools/confirmseed.py in a scratch worktree: demo without patch, demo with patch, whole suite with patch compared per test with the unpatched result set",
